@@ -233,8 +233,128 @@ def register_dwarf_layouts():
                 return 4 if v == a else 8
             return z3.If(v == a, 4, 8)
         lay = Layout(n, S.U64, size=size)
+        lay.custom = _sized_word(size)
         LAYOUTS[n] = lay
         LAYOUTS['the_' + n] = lay
 
 
+_WORD = z3.Function('Dwarf_word', z3.ArraySort(z3.IntSort(), z3.IntSort()), z3.IntSort(), z3.IntSort(), z3.IntSort())
+
+
+def dwarf_word(arr, p, size):
+    """value of a format- or address-sized field: a function of (bytes, position, width) so that a
+    read with the wrong width is a different value"""
+    return _WORD(arr, p, size)
+
+
+def _sized_word(size_of):
+    def custom(I, M, stream, owner, ln, exc):
+        from pyvc.ctx import PyExc
+        from pyvc.vals import to_int
+        size = size_of(owner)
+        pz, L = to_int(stream.pos), to_int(stream.length)
+        if not I.ctx.branch(pz + to_int(size) <= L):
+            raise PyExc(exc if exc != 'ConstructError' else 'FieldError', ln, 'short read in sized word')
+        v = _WORD(stream.arr, pz, to_int(size))
+        I.ctx.assume(z3.And(v >= 0, z3.Implies(to_int(size) == 4, v < 2 ** 32), v < 2 ** 64))
+        stream.pos = z3.simplify(pz + to_int(size))
+        return v
+    return custom
+
+
 register_dwarf_layouts()
+
+
+# ---- v5 list entries (RepeatUntilExcluding over a switch on the entry kind; K2: Dwarf_*lists_entries)
+RLE_KINDS = {
+    'DW_RLE_base_addressx': ['index'], 'DW_RLE_startx_endx': ['start_index', 'end_index'],
+    'DW_RLE_startx_length': ['start_index', 'length'], 'DW_RLE_offset_pair': ['start_offset', 'end_offset'],
+    'DW_RLE_base_address': ['address'], 'DW_RLE_start_end': ['start_address', 'end_address'],
+    'DW_RLE_start_length': ['start_address', 'length'],
+}
+LLE_KINDS = {
+    'DW_LLE_base_addressx': ['index'], 'DW_LLE_startx_endx': ['start_index', 'end_index', 'loc_expr'],
+    'DW_LLE_startx_length': ['start_index', 'length', 'loc_expr'], 'DW_LLE_offset_pair': ['start_offset', 'end_offset', 'loc_expr'],
+    'DW_LLE_default_location': ['loc_expr'], 'DW_LLE_base_address': ['address'],
+    'DW_LLE_start_end': ['start_address', 'end_address', 'loc_expr'], 'DW_LLE_start_length': ['start_address', 'length', 'loc_expr'],
+}
+
+
+def list_entries_value(name, kinds, arr, p):
+    """the decoded entries of the list starting at p, terminator excluded: element j is a record
+    whose leaves are functions of (bytes, p, j); a field exists exactly for the kinds that carry it"""
+    from pyvc.vals import SList, SRec, Code, ArrS, IntS, BoolS, StrS, to_int
+    p = to_int(p)
+    n = z3.Function(name + '.count', ArrS, IntS, IntS)(arr, p)
+    allf = []
+    for fs in kinds.values():
+        for f in fs:
+            if f not in allf:
+                allf.append(f)
+
+    def elem(j):
+        j = to_int(j)
+
+        def uf(f, sort=IntS):
+            return z3.Function('%s[].%s' % (name, f), ArrS, IntS, IntS, sort)(arr, p, j)
+        et = Code(z3.BoolVal(True), uf('entry_type', StrS), z3.IntVal(0))
+        fields = dict(entry_offset=uf('entry_offset'), entry_type=et)
+        present = {}
+        for f in allf:
+            if f == 'loc_expr':
+                ln = uf('loc_expr.len')
+                fields[f] = SList(lambda i, j=j: z3.Function('%s[].loc_expr[]' % name, ArrS, IntS, IntS, IntS, IntS)(arr, p, j, to_int(i)),
+                                  ln, name + '.loc_expr')
+            else:
+                fields[f] = uf(f)
+            ks = [k for k, fs in kinds.items() if f in fs]
+            present[f] = z3.Or(*[et.name == z3.StringVal(k) for k in ks])
+        fields['entry_end_offset'] = uf('entry_end_offset')
+        fields['entry_length'] = uf('entry_end_offset') - uf('entry_offset')
+        return SRec(fields, 'Container', None, present)
+    return SList(elem, n, name)
+
+
+def list_entries_facts(name, kinds, arr, p):
+    """well-formedness of the decoded list that the layout guarantees (K2 + Sem of the node kinds):
+    kinds are the named non-terminator kinds, fields are natural numbers, entries are adjacent from p"""
+    from pyvc.vals import ArrS, IntS, StrS, to_int
+    p = to_int(p)
+    j = z3.Int('j!' + name)
+    n = z3.Function(name + '.count', ArrS, IntS, IntS)(arr, p)
+
+    def uf(f, sort=IntS):
+        return z3.Function('%s[].%s' % (name, f), ArrS, IntS, IntS, sort)(arr, p, j)
+    allf = sorted({f for fs in kinds.values() for f in fs if f != 'loc_expr'})
+    body = [z3.Or(*[uf('entry_type', StrS) == z3.StringVal(k) for k in kinds]),
+            uf('entry_offset') >= p, uf('entry_end_offset') > uf('entry_offset'), uf('loc_expr.len') >= 0]
+    body += [uf(f) >= 0 for f in allf]
+    nxt = z3.Function('%s[].entry_offset' % name, ArrS, IntS, IntS, IntS)
+    body.append(z3.Implies(j + 1 < n, nxt(arr, p, j + 1) == uf('entry_end_offset')))
+    return [n >= 0, z3.Implies(n > 0, nxt(arr, p, 0) == p),
+            z3.ForAll([j], z3.Implies(z3.And(j >= 0, j < n), z3.And(*body)), patterns=[uf('entry_offset'), uf('entry_type', StrS)])]
+
+
+def _entries_layout(name, kinds):
+    lay = Layout(name, None)
+
+    def custom(I, M, stream, owner, ln, exc):
+        from pyvc.ctx import PyExc
+        from pyvc.vals import ArrS, IntS, BoolS, to_int
+        p, L = to_int(stream.pos), to_int(stream.length)
+        ok = z3.Function('ok!' + name, ArrS, IntS, IntS, BoolS)(stream.arr, L, p)
+        end = z3.Function('end!' + name, ArrS, IntS, IntS)(stream.arr, p)
+        if not I.ctx.branch(ok):
+            raise PyExc(exc if exc != 'ConstructError' else 'FieldError', ln, 'malformed or truncated list')
+        val = list_entries_value(name, kinds, stream.arr, p)
+        for f in list_entries_facts(name, kinds, stream.arr, p):
+            I.ctx.assume(f)
+        I.ctx.assume(z3.And(end > p, end <= L))
+        stream.pos = end
+        return val
+    lay.custom = custom
+    LAYOUTS[name] = lay
+
+
+_entries_layout('Dwarf_rnglists_entries', RLE_KINDS)
+_entries_layout('Dwarf_loclists_entries', LLE_KINDS)
